@@ -175,6 +175,9 @@ func (s *Suite) Write(dir string, seed int64, tier string, only int) error {
 			c := cases[end].Cost
 			if c <= 0 {
 				c = 1
+				if len(cases[end].Term) > 100000 {
+					c = float64(shard) // a very large case is judged in a shard of its own, in parallel with the others
+				}
 			}
 			if end > first && acc+c > float64(shard)+1e-9 {
 				break
